@@ -9,4 +9,5 @@ mkdir -p bin evidence replays
 (cd lean && lake build Bolt boltmodel)
 cp /repo/go.sum harness/go.sum
 (cd harness && go build -tags verif -o ../bin/vh .)
+(cd /repo && go build -o /verif/bin/bbolt ./cmd/bbolt)
 echo setup ok
